@@ -68,8 +68,8 @@ pub struct Gen<'r> {
     nodes: usize,
     pure_ctx: u32,
     loop_depth: u32,
-    /// generator mask for known finding KF-C14-1: variables that must not be assigned because the
-    /// code being generated is the value of an assignment to a component of them
+    /// generator mask for known finding KF-C14-2: variables ("*" = all) that must not be assigned because
+    /// the code being generated is the value of a compound assignment to a component of them
     no_assign: Vec<String>,
     /// multiplicity of the code being generated (product of enclosing loop trip counts)
     mult: u64,
@@ -943,6 +943,9 @@ impl<'r> Gen<'r> {
         if self.pure_ctx > 0 {
             return None;
         }
+        if self.no_assign.iter().any(|n| n == "*") {
+            return None;
+        }
         let muts: Vec<Var> = self.visible_vars().into_iter().filter(|v| v.mutable && !self.no_assign.contains(&v.name)).collect();
         if muts.is_empty() {
             return None;
@@ -1019,9 +1022,14 @@ impl<'r> Gen<'r> {
         if op.is_some() {
             self.note("compound-assignment");
         }
-        let masked = !accs.is_empty();
+        // generator mask for known finding KF-C14-2: a compound assignment is lowered by copying the
+        // place (`x.acc = x.acc op v`), so the place is read before and written after `v` runs, with
+        // its index expressions evaluated twice: `v` then neither assigns to `x` nor (if an index is
+        // not a literal) to anything else. Plain assignments need no mask.
+        let masked = op.is_some() && !accs.is_empty();
+        let mask_all = masked && accs.iter().any(|a| matches!(a, Acc::Index(i) if !matches!(i.kind, ExprKind::Lit(_))));
         if masked {
-            self.no_assign.push(v.name.clone());
+            self.no_assign.push(if mask_all { "*".to_string() } else { v.name.clone() });
         }
         let value = match op {
             Some(o) if o.is_shift() => {
